@@ -452,14 +452,17 @@ class ExprMixin(CallMixin):
                 over = self.loop_ctx[-1]
                 if len(getattr(self, "_round_tags", ())) == len(self.loop_ctx):
                     metas = lst.__dict__.setdefault("_part_meta", {})
-                    meta = metas.setdefault(id(over), {"hits": 0, "tags": {}})
+                    meta = metas.setdefault(id(over), {"hits": 0, "tags": {}, "seq": {}})
                     meta["hits"] += 1
                     meta["tags"].setdefault(repr(item), set()).add(self._round_tags[-1])
+                    meta["seq"].setdefault(self._round_tags[-1], []).append(item)  # what each round appended, in order
                 for i, (o, per) in enumerate(lst.loop_parts):
                     if o is over:
                         if not any(repr(item) == repr(x) for x in per):
                             per.append(item)
                         return
+                if not lst.loop_parts:
+                    lst._tail_start = len(lst.items)  # type: ignore[attr-defined]  # items appended from now on come after the loop's
                 lst.loop_parts.append((over, [item]))
             else:
                 lst.items.append(item)
@@ -676,8 +679,11 @@ class ExprMixin(CallMixin):
         try:
             filtered = False
             for c in g.ifs:
-                filtered = True
-                if not self.truthy(self.eval(c, loc, module), c):
+                n_choices = len(self.trace)
+                keep = self.truthy(self.eval(c, loc, module), c)
+                if len(self.trace) != n_choices or not keep:
+                    filtered = True  # a test that every element passes for sure (no choice was needed) filters nothing
+                if not keep:
                     l = PyList([])
                     l.created_in = self._frame_id()
                     return l
@@ -764,6 +770,15 @@ class ExprMixin(CallMixin):
             if isinstance(base, (PyList, PyTuple)) and not getattr(base, "loop_parts", None) and all(isinstance(x, Const) for x in idx.args):
                 items = base.items[slice(lo.v, hi.v, st.v)]
                 return PyList(items) if isinstance(base, PyList) else PyTuple(items)
+            if isinstance(base, (AbsList, ListV)) and all(isinstance(x, Const) and (x.v is None or isinstance(x.v, int)) for x in idx.args) \
+                    and st.v in (None, 1):
+                # xs[a:b] of a list of unknown length: the same kind of elements, fewer of them; a new list
+                drop = (abs(lo.v) if lo.v else 0) if (lo.v or 0) >= 0 else 0
+                drop += abs(hi.v) if (hi.v is not None and hi.v < 0) else 0
+                keep_all = hi.v is None or hi.v < 0
+                part = AbsList(base.elem, max(0, self.list_minlen(base) - drop) if keep_all and (lo.v or 0) >= 0 else 0)
+                part.created_in = self._frame_id()  # type: ignore[attr-defined]
+                return part
             if is_strlike(base) or (isinstance(base, Sym) and base.hint == "str"):
                 sl = tuple(x.v if isinstance(x, Const) else repr(x) for x in idx.args)
                 s = Str(to_str_parts(base, (("slice",) + sl,)))
